@@ -49,7 +49,7 @@ evalw)
   cp /repo/Cargo.lock "$wt/Cargo.lock"
   git -C "$wt" apply "$m/patch.diff" || { echo "EVAL: patch does not apply"; exit 2; }
   for id in "$@"; do
-    out=$(VERIF_REPO="$wt" ./check "$id" --tier quick 2>&1); rc=$?
+    out=$(VERIF_EVIDENCE_DIR=/verif/work/evidence-mutants VERIF_REPO="$wt" ./check "$id" --tier quick 2>&1); rc=$?
     v=$(echo "$out" | grep -E "^(VIOLATION|INCONCLUSIVE)" | head -n2 | tr '\n' ' ')
     sig=$(echo "$out" | grep -E "^signature:" | head -n1)
     last=$(echo "$out" | tail -n1)
